@@ -23,7 +23,7 @@ pub fn dispatch(op: &str, args: &[&str]) -> Option<Res> {
             if !forms_ratio::run_group(fam, q, &v, &mut out) {
                 return Err(format!("bad-op rform group {} {}", fam, q));
             }
-            verdict(out)
+            verdict_value(out)
         })()),
         "fform" => Some((|| -> Res {
             let inst = arg(args, 0)?;
@@ -47,7 +47,7 @@ pub fn dispatch(op: &str, args: &[&str]) -> Option<Res> {
             if !known {
                 return Err(format!("bad-op fform group {} {} {}", inst, fam, shape));
             }
-            verdict(out)
+            verdict_value(out)
         })()),
         _ => None,
     }
